@@ -34,6 +34,7 @@ class IterInit(Task):
     prop = "C15"
     reach = "U"
     qual = IT + "__init__"
+    inline = (PC + "pool_imap",)        # the generator that owns the pool: its real body
 
     def __init__(self):
         self.name = "LevelDataIterator.__init__"
@@ -70,6 +71,12 @@ class IterInit(Task):
         ctx.oblige("post.consuming-the-first-file-from-its-start",
                    zand(veq(ctx, data.seq, SymSeq(NBF(FID(0)), lambda q: ELEM(FID(0), to_z3(q)))), veq(ctx, data.pos, 0)), "P")
         ctx.oblige("frame.one-pool", len([e for e in ctx.events if e[0] == "pool-created"]) == 1, "P")
+        # (pool contract, see LevelDataStream.iter: a pool only its imap iterator references can block the iteration for ever -
+        # seen for this iterator under GIL contention in the consuming process)
+        pool = getattr(it, "pool", None)
+        if pool is not None and getattr(pool, "created_here", False):
+            ctx.oblige("post.pool-outlives-the-iterator", bool(getattr(pool, "held", False)), "P",
+                       note="imap iterator kept while its pool is a dead local: next() can block for ever")
 
 
 class IterNext(Task):
